@@ -253,7 +253,8 @@ _ADDED = {
     "C17": " R-TRUNC (artefacts are written into empty files); R-AMBIENT also covers the command line and the driver; R-CACHEKEY (the driver's caches are keyed by the "
            "whole path, not by a projection of it, helpers followed).",
     "C18": " R-IDXGUARD (a length test in front of a constant index covers it); R-FVSCOPE, R-TYWF and R-TYRULE guard invariants whose loss ends in "
-           "a panic of a later stage; R-NAMEPRINT.",
+           "a panic of a later stage; R-NAMEPRINT; R-NEGRANGE (a value cast from an unsigned integer is negated only "
+           "below 2^(N-1)).",
     "C19": " R-ONCE (lift translates what it shares once), R-LIFTSTORE (the collection of lifted definitions is only added to), R-SHAREPATH, "
            "R-XLATE (a continuation is placed where the translation scheme places it, not substituted into several positions).",
     "C20": " The print-call classes of R-ABI are part of the check (live variables survive the print primitives); R-TEMPLATE reads strto* conversions with "
